@@ -319,9 +319,64 @@ pub fn handle(s: &mut Session, rest: &str) -> String {
                 _ => "BADCMD".to_string(),
             }
         }
-        "alist" => {
-            // alist <k1> <v1> <k2> <v2> …  (alist_from for 0..3 pairs) / plist likewise
-            "BADCMD".to_string()
+        "llen" => match h(s, a1) {
+            Some(o) => match lists::length(&o) {
+                Ok(n) => format!("N {}", n),
+                Err(_) => "ERR".to_string(),
+            },
+            None => "BADCMD".to_string(),
+        },
+        "lnth" | "lnthcdr" => {
+            let (n, o) = match (a1.trim().parse::<i64>(), h(s, a2)) {
+                (Ok(n), Some(o)) => (n, o),
+                _ => return "BADCMD".to_string(),
+            };
+            let r = if op == "lnth" { lists::nth(n, o) } else { lists::nthcdr(n, o) };
+            res_handle(s, r)
+        }
+        "llast" => {
+            let o = match h(s, a1) {
+                Some(o) => o,
+                None => return "BADCMD".to_string(),
+            };
+            let n = match a2.trim() {
+                "" | "none" => None,
+                t => match t.parse::<i64>() {
+                    Ok(n) => Some(n),
+                    Err(_) => return "BADCMD".to_string(),
+                },
+            };
+            let r = lists::last(&o, n);
+            res_handle(s, r)
+        }
+        "assoc" | "alist_get" => {
+            let both = format!("{} {}", a1, a2);
+            let v = match hs(s, &both) {
+                Some(v) if v.len() == 2 || (v.len() == 3 && op == "alist_get") => v,
+                _ => return "BADCMD".to_string(),
+            };
+            let r = if op == "assoc" {
+                lists::assoc(&mut s.ctx, &v[0], &v[1], None)
+            } else {
+                lists::alist_get(&mut s.ctx, &v[0], &v[1], v.get(2).cloned(), None, None)
+            };
+            res_handle(s, r)
+        }
+        "alist_from" | "plist_from" => {
+            let both = format!("{} {}", a1, a2);
+            let v = match hs(s, &both) {
+                Some(v) if v.len() % 2 == 0 && v.len() <= 6 => v,
+                _ => return "BADCMD".to_string(),
+            };
+            let p = |i: usize| (v[2 * i].clone(), v[2 * i + 1].clone());
+            let al = op == "alist_from";
+            let o = match v.len() / 2 {
+                0 => if al { lists::alist_from([]) } else { lists::plist_from([]) },
+                1 => if al { lists::alist_from([p(0)]) } else { lists::plist_from([p(0)]) },
+                2 => if al { lists::alist_from([p(0), p(1)]) } else { lists::plist_from([p(0), p(1)]) },
+                _ => if al { lists::alist_from([p(0), p(1), p(2)]) } else { lists::plist_from([p(0), p(1), p(2)]) },
+            };
+            new_handle(s, o)
         }
         _ => "BADCMD".to_string(),
     }
